@@ -119,7 +119,9 @@ PROPS = {
     },
     "C18": {
         "module": "HctlProofs.Props.C18",
-        "theorems": ["Hctl.C18.unsafe_ex_eq", "Hctl.C18.unsafe_ex_eq_pure", "Hctl.C18.no_steady_eq",
+        "extra_modules": ["HctlProofs.Lemmas.UnsafeStrings"],
+        "theorems": ["Hctl.C18.unsafeEx_eq_standard",
+                     "Hctl.C18.unsafe_ex_eq", "Hctl.C18.unsafe_ex_eq_pure", "Hctl.C18.no_steady_eq",
                      "Hctl.C18.fixedPoint_pattern_excluded"],
         "ks": ["o18"],
         "spec_tied": ["o18:pure_"],
@@ -129,7 +131,9 @@ PROPS = {
     },
     "C20": {
         "module": "HctlProofs.Props.C20",
-        "theorems": ["Hctl.C20.colour_slice_eq", "Hctl.C20.sat_colourwise", "Hctl.C20.slice_independent_of_other_colours",
+        "extra_modules": ["HctlProofs.Lemmas.Instantiate"],
+        "theorems": ["Hctl.C20.agree_instantiate", "Hctl.C20.slice_eq_instantiated",
+                     "Hctl.C20.colour_slice_eq", "Hctl.C20.sat_colourwise", "Hctl.C20.slice_independent_of_other_colours",
                      "Hctl.C20.colour_slice_sem", "Hctl.C20.colour_slice_entry"],
         "ks": ["o20"],
         "spec_tied": ["o20:eval "],
@@ -143,7 +147,9 @@ PROPS = {
     },
     "C10": {
         "module": "HctlProofs.Props.C10",
-        "theorems": ["Hctl.C10.sat_subst", "Hctl.C10.sat_subst_two", "Hctl.C10.raw_result_as_wild", "Hctl.C10.ext_empty_ctx",
+        "extra_modules": ["HctlProofs.Lemmas.PlainViaExt"],
+        "theorems": ["Hctl.C10.plain_through_extended",
+                     "Hctl.C10.sat_subst", "Hctl.C10.sat_subst_two", "Hctl.C10.raw_result_as_wild", "Hctl.C10.ext_empty_ctx",
                      "Hctl.C10.sat_subst_on", "Hctl.C10.sat_ctx_congr", "Hctl.C10.substitute_raw_result", "Hctl.extendedDirty_correct"],
         "ks": ["o10"],
         "spec_tied": ["o10:eval "],
@@ -221,7 +227,9 @@ PROPS = {
     },
     "C08": {
         "module": "HctlProofs.Props.C08",
-        "theorems": ["Hctl.C08.alpha_invariant", "Hctl.C08.paren_invariant", "Hctl.C08.paren_invariant_inner",
+        "extra_modules": ["HctlProofs.Lemmas.SameTree"],
+        "theorems": ["Hctl.C08.formulaeDirty_congr", "Hctl.C08.extendedDirty_congr", "Hctl.C08.results_of_same_tokens", "Hctl.C08.results_of_same_tokens_ext", "Hctl.C08.parseOne_of_alpha", "Hctl.C08.parseOne_of_parens", "Hctl.C08.leading_ws_results",
+                     "Hctl.C08.alpha_invariant", "Hctl.C08.paren_invariant", "Hctl.C08.paren_invariant_inner",
                      "Hctl.C08.const_spelling_invariant", "Hctl.C08.copy_by_canonical_name", "Hctl.C08.leading_ws_invariant",
                      "Hctl.C08.ws_between_tokens", "Hctl.C08.hybrid_segment_ws", "Hctl.C08.long_short_invariant"],
         "ks": ["o08", "k1"],
